@@ -5,9 +5,11 @@
    full symbolic step for one handshake message; hrecv / hstep are Conn.recv / Conn.step with the
    oracle answers computed symbolically (theorems C02_hrecv_is_recv, C02_hstep_is_step). *)
 From Coq Require Import Lia ZifyBool.
-From Model Require Import Base SeqNum Wire Conn Handshake.
-From Proofs Require Import HandshakeP.
+From RecordUpdate Require Import RecordUpdate.
+From Model Require Import Base SeqNum Wire Conn Handshake Net HsNet.
+From Proofs Require Import HandshakeP HsRunP.
 From Extract Require Import U_Handshake.
+Import RecordSetNotations.
 Open Scope Z_scope.
 
 (* (1) client_adopts_only_signed.  A client without a key that is not CONNECTED becomes CONNECTED / takes
@@ -199,3 +201,203 @@ Example C02_forged_and_genuine :
   (let c := fst (step (MServerHello (t_pub 5) p (t_sign 5 p))) in (c_status c, c_key c, c_token c))
     = (CONNECTED, Some (t_kdf (t_dh 3 11) 13), 1073741825).
 Proof. vm_compute. split; reflexivity. Qed.
+
+(* ================= RUN LEVEL (Model/HsNet.v, Proofs/HsRunP.v) =================
+   The client A (client0, pinned to pub root) and the server-side connection B (server0, root key
+   `root`) in ONE joint history of any length: a list of endpoint events in which every receive event
+   carries an arbitrary datagram (the network and the active attacker).  Each joint step is Net.nstep of
+   the two Conn.v endpoints with the oracle answers computed symbolically (C02_run_is_net_history).
+   Ghost: gA n / gB n log every handshake message an endpoint has processed (carrying datagram, key
+   held at arrival, state, type, content); signed_log (gB n) lists, in order, the (client public key,
+   payload) of every hello B has built and signed with the root key.
+   Attacker hypothesis dy_run: a server hello inside a datagram presented to the client satisfies
+   Handshake.attacker_hello with seen := the hellos the root key holder has signed SO FAR — by B in this
+   history (the ghost) or by other sessions of the same server (`other`, arbitrary, replayable).  B's
+   events are unconstrained.  sealed_run (only where stated) is Net.wf_ev: a datagram B can open under
+   the key it holds was emitted by A. *)
+
+(* (R0) the joint history is a Net.v history *)
+Theorem C02_run_is_net_history :
+  forall (SIG : Type) (pub : Z -> Z) (sign : Z -> sh_payload -> SIG) (verify : Z -> SIG -> sh_payload -> bool)
+         (dh kdf : Z -> Z -> Z) (parse : list byte -> hmsg SIG)
+         (ser_shello : Z -> sh_payload -> SIG -> list byte) (ser_chal : Z -> list byte)
+         (e : env) (n : hnet SIG) (v : jev),
+  let n1 := nstep e (net_of SIG n) (nev_of SIG pub sign verify dh kdf parse ser_shello ser_chal n v) in
+  let n' := jstep SIG pub sign verify dh kdf parse ser_shello ser_chal e n v in
+  nA n1 = h_conn (jA n') /\ nB n1 = h_conn (jB n') /\ wAB n1 = jAB n' /\ wBA n1 = jBA n'.
+Proof. exact jstep_is_nstep_proof. Qed.
+Print Assumptions C02_run_is_net_history.
+
+(* (R1) authentication as an invariant of runs.  At EVERY reachable joint state: either the client has
+   adopted nothing, holds no key and is not CONNECTED; or the hello it adopted last (ghost h_adopted)
+   carries the root key holder's signature of its payload p, p was built and signed by the genuine
+   server earlier in this history (it is in B's signed log) or by another of its sessions, the client's
+   key is kdf (dh a (sp_pub p)) (sp_salt p), its token is sp_token p, and the adoption is a logged
+   SERVER_HELLO message that travelled in a datagram the client could open. *)
+Theorem C02_run_authentication :
+  forall (SIG : Type) (pub : Z -> Z) (sign : Z -> sh_payload -> SIG) (verify : Z -> SIG -> sh_payload -> bool)
+         (dh kdf : Z -> Z -> Z) (parse : list byte -> hmsg SIG)
+         (ser_shello : Z -> sh_payload -> SIG -> list byte) (ser_chal : Z -> list byte),
+  (forall sk s m, verify (pub sk) s m = true <-> s = sign sk m) ->
+  forall (e : env) (a b root : Z) (rand : list (Z * Z)) (akeys : list Z) (other : list sh_payload) (vs : list jev),
+  ~ In root akeys ->
+  dy_run SIG pub sign verify dh kdf parse ser_shello ser_chal e root akeys other (hnet0 SIG a (Some (pub root)) b root rand) vs ->
+  let n := jrun SIG pub sign verify dh kdf parse ser_shello ser_chal e (hnet0 SIG a (Some (pub root)) b root rand) vs in
+  match h_adopted (jA n) with
+  | None => c_key (h_conn (jA n)) = None /\ c_status (h_conn (jA n)) <> CONNECTED
+  | Some (rp, p, sg) =>
+      sg = sign root p /\ verify (pub root) sg p = true /\
+      (In p other \/ exists cpub, In (cpub, p) (signed_log SIG pub (gB n))) /\
+      c_key (h_conn (jA n)) = Some (client_key dh kdf a p) /\ c_token (h_conn (jA n)) = sp_token p /\
+      exists d k0 sA, In (d, k0, (sA, SERVER_HELLO, MServerHello rp p sg)) (gA n) /\
+                      carried SIG parse (d, k0, (sA, SERVER_HELLO, MServerHello rp p sg))
+  end.
+Proof. exact run_authentication_proof. Qed.
+Print Assumptions C02_run_authentication.
+
+(* ... "built by the genuine server earlier in this history": a payload in B's signed log belongs to a
+   logged CLIENT_HELLO message in whose processing B queued exactly ser_shello (pub root) p (sign root p)
+   and took the key kdf (dh b cpub) (sp_salt p) and the token sp_token p.  EVERY history. *)
+Theorem C02_run_genuine_hello_was_built :
+  forall (SIG : Type) (pub : Z -> Z) (sign : Z -> sh_payload -> SIG) (verify : Z -> SIG -> sh_payload -> bool)
+         (dh kdf : Z -> Z -> Z) (parse : list byte -> hmsg SIG)
+         (ser_shello : Z -> sh_payload -> SIG -> list byte) (ser_chal : Z -> list byte)
+         (e : env) (a : Z) (pinned : option Z) (b root : Z) (rand : list (Z * Z)) (vs : list jev),
+  let n := jrun SIG pub sign verify dh kdf parse ser_shello ser_chal e (hnet0 SIG a pinned b root rand) vs in
+  forall cpub p, In (cpub, p) (signed_log SIG pub (gB n)) ->
+  exists d k0 sB ver, In (d, k0, (sB, CLIENT_HELLO, MClientHello cpub ver true)) (gB n) /\
+    sp_pub p = pub b /\
+    fst (hs_step SIG pub sign verify dh kdf ser_shello ser_chal sB CLIENT_HELLO (MClientHello cpub ver true)) =
+      send_type ((h_conn sB) <| c_token := sp_token p |> <| c_key := Some (server_key dh kdf b cpub p) |>
+                   <| c_status := CONNECTING |>)
+        SERVER_HELLO (ser_shello (pub root) p (sign root p)) RNone INone.
+Proof. exact run_genuine_built_proof. Qed.
+Print Assumptions C02_run_genuine_hello_was_built.
+
+(* ... and every handshake message the client EVER processed (altered, re-signed, foreign, replayed,
+   garbage, of any type) either was such a genuine hello, which it adopted, or left its key and token
+   alone and its status as it was or DISCONNECTED *)
+Theorem C02_run_client_messages :
+  forall (SIG : Type) (pub : Z -> Z) (sign : Z -> sh_payload -> SIG) (verify : Z -> SIG -> sh_payload -> bool)
+         (dh kdf : Z -> Z -> Z) (parse : list byte -> hmsg SIG)
+         (ser_shello : Z -> sh_payload -> SIG -> list byte) (ser_chal : Z -> list byte),
+  (forall sk s m, verify (pub sk) s m = true <-> s = sign sk m) ->
+  forall (e : env) (a b root : Z) (rand : list (Z * Z)) (akeys : list Z) (other : list sh_payload) (vs : list jev),
+  ~ In root akeys ->
+  dy_run SIG pub sign verify dh kdf parse ser_shello ser_chal e root akeys other (hnet0 SIG a (Some (pub root)) b root rand) vs ->
+  let n := jrun SIG pub sign verify dh kdf parse ser_shello ser_chal e (hnet0 SIG a (Some (pub root)) b root rand) vs in
+  forall d k0 sA ty m, In (d, k0, (sA, ty, m)) (gA n) ->
+  let c1 := fst (hs_step SIG pub sign verify dh kdf ser_shello ser_chal sA ty m) in
+  (exists rp p sg, ty = SERVER_HELLO /\ m = MServerHello rp p sg /\ sg = sign root p /\
+     (In p other \/ exists cpub, In (cpub, p) (signed_log SIG pub (gB n))) /\
+     c_key c1 = Some (client_key dh kdf a p) /\ c_token c1 = sp_token p /\ c_status c1 = CONNECTED) \/
+  (c_key c1 = c_key (h_conn sA) /\ c_token c1 = c_token (h_conn sA) /\
+   (c_status c1 = c_status (h_conn sA) \/ c_status c1 = DISCONNECTED)).
+Proof. exact run_client_messages_proof. Qed.
+Print Assumptions C02_run_client_messages.
+
+(* (R2a) promotion on proof of key, EVERY history, any client, no hypothesis: each handler.connect B has
+   reported was caused by a CHALLENGE_RESP message that carries B's token, which is the token of a hello B
+   had signed, processed while B held the key derived for that hello, in a datagram authentic under the
+   key B held when it arrived; and B is CONNECTED only with the key and token of such a report. *)
+Theorem C02_run_connect_only_after_proof_of_key :
+  forall (SIG : Type) (pub : Z -> Z) (sign : Z -> sh_payload -> SIG) (verify : Z -> SIG -> sh_payload -> bool)
+         (dh kdf : Z -> Z -> Z) (parse : list byte -> hmsg SIG)
+         (ser_shello : Z -> sh_payload -> SIG -> list byte) (ser_chal : Z -> list byte)
+         (e : env) (a : Z) (pinned : option Z) (b root : Z) (rand : list (Z * Z)) (vs : list jev),
+  let n := jrun SIG pub sign verify dh kdf parse ser_shello ser_chal e (hnet0 SIG a pinned b root rand) vs in
+  (forall d k0 sB ty m, In (d, k0, (sB, ty, m)) (gB n) ->
+     connects SIG pub sign verify dh kdf ser_shello ser_chal (sB, ty, m) = true ->
+     ty = CHALLENGE_RESP /\ m = MChallenge (c_token (h_conn sB)) /\
+     carried SIG parse (d, k0, (sB, ty, m)) /\
+     (exists k, k0 = Some k /\ authentic k d) /\
+     exists cpub p, In (cpub, p) (signed_log SIG pub (gB n)) /\ sp_pub p = pub b /\
+        c_key (h_conn sB) = Some (server_key dh kdf b cpub p) /\ c_token (h_conn sB) = sp_token p) /\
+  (c_status (h_conn (jB n)) = CONNECTED ->
+     exists d k0 sB m, In (d, k0, (sB, CHALLENGE_RESP, m)) (gB n) /\
+        connects SIG pub sign verify dh kdf ser_shello ser_chal (sB, CHALLENGE_RESP, m) = true /\
+        c_key (h_conn sB) = c_key (h_conn (jB n)) /\ c_token (h_conn sB) = c_token (h_conn (jB n))).
+Proof. exact run_connect_proof. Qed.
+Print Assumptions C02_run_connect_only_after_proof_of_key.
+
+(* (R2b) agreement inside ANY history: when the hello the client holds is the one B signed last and B
+   signed it for the client's public key pub a (the honest handshake, possibly surrounded by any amount of
+   loss, duplication, replay and injection), both ends hold the same key kdf (dh a (pub b)) salt and
+   the same token; if moreover B is CONNECTED, its connect report was caused by a challenge response with
+   that token, processed while B held that key, in a datagram authentic under the key B held on arrival *)
+Theorem C02_run_honest_complete_agree :
+  forall (SIG : Type) (pub : Z -> Z) (sign : Z -> sh_payload -> SIG) (verify : Z -> SIG -> sh_payload -> bool)
+         (dh kdf : Z -> Z -> Z) (parse : list byte -> hmsg SIG)
+         (ser_shello : Z -> sh_payload -> SIG -> list byte) (ser_chal : Z -> list byte),
+  (forall sk s m, verify (pub sk) s m = true <-> s = sign sk m) ->
+  (forall x y, dh x (pub y) = dh y (pub x)) ->
+  forall (e : env) (a b root : Z) (rand : list (Z * Z)) (akeys : list Z) (other : list sh_payload) (vs : list jev),
+  ~ In root akeys ->
+  dy_run SIG pub sign verify dh kdf parse ser_shello ser_chal e root akeys other (hnet0 SIG a (Some (pub root)) b root rand) vs ->
+  let n := jrun SIG pub sign verify dh kdf parse ser_shello ser_chal e (hnet0 SIG a (Some (pub root)) b root rand) vs in
+  forall rp p sg, h_adopted (jA n) = Some (rp, p, sg) ->
+  last (map Some (signed_log SIG pub (gB n))) None = Some (pub a, p) ->
+  (c_key (h_conn (jA n)) = Some (kdf (dh a (pub b)) (sp_salt p)) /\
+   c_key (h_conn (jB n)) = c_key (h_conn (jA n)) /\
+   c_token (h_conn (jA n)) = sp_token p /\ c_token (h_conn (jB n)) = sp_token p) /\
+  (c_status (h_conn (jB n)) = CONNECTED ->
+   exists d k0 sB, In (d, k0, (sB, CHALLENGE_RESP, MChallenge (sp_token p))) (gB n) /\
+     connects SIG pub sign verify dh kdf ser_shello ser_chal (sB, CHALLENGE_RESP, MChallenge (sp_token p)) = true /\
+     c_key (h_conn sB) = c_key (h_conn (jB n)) /\ c_token (h_conn sB) = sp_token p /\
+     exists k, k0 = Some k /\ authentic k d).
+Proof.
+  intros SIG pub sign verify dh kdf parse ser_shello ser_chal VS DC e a b root rand akeys other vs NR DY n rp p sg Had Hl.
+  split.
+  - exact (run_agreement_proof SIG pub sign verify dh kdf parse ser_shello ser_chal VS DC e a b root rand akeys other vs NR DY rp p sg Had Hl).
+  - intros St.
+    destruct (run_honest_complete_proof SIG pub sign verify dh kdf parse ser_shello ser_chal VS DC e a b root rand akeys other vs NR DY rp p sg Had Hl St)
+      as (_ & _ & _ & _ & X). exact X.
+Qed.
+Print Assumptions C02_run_honest_complete_agree.
+
+(* (R2c) with the AES-GCM hypothesis for B (sealed_run = Net.wf_ev): whenever B reports connect, the
+   datagram that caused it is one the client A itself emitted, sealed under a key A had derived from a
+   hello signed by the root key holder (built by B in this history or by another session) *)
+Theorem C02_run_connect_sealed_by_client :
+  forall (SIG : Type) (pub : Z -> Z) (sign : Z -> sh_payload -> SIG) (verify : Z -> SIG -> sh_payload -> bool)
+         (dh kdf : Z -> Z -> Z) (parse : list byte -> hmsg SIG)
+         (ser_shello : Z -> sh_payload -> SIG -> list byte) (ser_chal : Z -> list byte),
+  (forall sk s m, verify (pub sk) s m = true <-> s = sign sk m) ->
+  forall (e : env) (a b root : Z) (rand : list (Z * Z)) (akeys : list Z) (other : list sh_payload) (vs : list jev),
+  ~ In root akeys ->
+  dy_run SIG pub sign verify dh kdf parse ser_shello ser_chal e root akeys other (hnet0 SIG a (Some (pub root)) b root rand) vs ->
+  sealed_run SIG pub sign verify dh kdf parse ser_shello ser_chal e (hnet0 SIG a (Some (pub root)) b root rand) vs ->
+  let n := jrun SIG pub sign verify dh kdf parse ser_shello ser_chal e (hnet0 SIG a (Some (pub root)) b root rand) vs in
+  forall d k0 sB ty m, In (d, k0, (sB, ty, m)) (gB n) ->
+  connects SIG pub sign verify dh kdf ser_shello ser_chal (sB, ty, m) = true ->
+  exists k, k0 = Some k /\ authentic k d /\ In d (jAB n) /\
+    exists dA kA sA rp pl sg, In (dA, kA, (sA, SERVER_HELLO, MServerHello rp pl sg)) (gA n) /\
+      verify (pub root) sg pl = true /\ sg = sign root pl /\
+      (In pl other \/ exists cpub, In (cpub, pl) (signed_log SIG pub (gB n))) /\
+      k = client_key dh kdf a pl.
+Proof. exact run_connect_sealed_by_client_proof. Qed.
+Print Assumptions C02_run_connect_sealed_by_client.
+
+(* (R3) the replayed hello.  A genuine hello of ANOTHER session of the same server (p in `other`) is
+   signed by the pinned root key, so the client adopts it (R1 allows exactly this; example below) — the
+   property text ("only from a server-hello whose key-exchange parameters are signed by the matching
+   private key") is not contradicted.  What then happens: "the client's key is a key B held, or B never
+   reports connect": if no key the client ever derived from a verified hello is a key B held when a
+   datagram arrived, then in the whole history B reports no connect and is not CONNECTED. *)
+Theorem C02_run_foreign_hello_never_completes :
+  forall (SIG : Type) (pub : Z -> Z) (sign : Z -> sh_payload -> SIG) (verify : Z -> SIG -> sh_payload -> bool)
+         (dh kdf : Z -> Z -> Z) (parse : list byte -> hmsg SIG)
+         (ser_shello : Z -> sh_payload -> SIG -> list byte) (ser_chal : Z -> list byte),
+  (forall sk s m, verify (pub sk) s m = true <-> s = sign sk m) ->
+  forall (e : env) (a b root : Z) (rand : list (Z * Z)) (akeys : list Z) (other : list sh_payload) (vs : list jev),
+  ~ In root akeys ->
+  dy_run SIG pub sign verify dh kdf parse ser_shello ser_chal e root akeys other (hnet0 SIG a (Some (pub root)) b root rand) vs ->
+  sealed_run SIG pub sign verify dh kdf parse ser_shello ser_chal e (hnet0 SIG a (Some (pub root)) b root rand) vs ->
+  let n := jrun SIG pub sign verify dh kdf parse ser_shello ser_chal e (hnet0 SIG a (Some (pub root)) b root rand) vs in
+  (forall dA kA sA rp pl sg, In (dA, kA, (sA, SERVER_HELLO, MServerHello rp pl sg)) (gA n) ->
+     verify (pub root) sg pl = true ->
+     forall d k0 en, In (d, k0, en) (gB n) -> k0 <> Some (client_key dh kdf a pl)) ->
+  (forall j, In j (gB n) -> connects SIG pub sign verify dh kdf ser_shello ser_chal (snd j) = false) /\
+  c_status (h_conn (jB n)) <> CONNECTED.
+Proof. exact run_foreign_hello_never_completes_proof. Qed.
+Print Assumptions C02_run_foreign_hello_never_completes.
